@@ -143,6 +143,41 @@ def check_problem(spec, counters, violations):
                 issues.append("disabled knob %d was set to %r by the user between two calls; the next step() changed it to %r" % (i, user[i], S.cont[names[i]]))
             elif any(float(v) != user[i] for v in V2[n_before:, i]):
                 issues.append("disabled knob %d was set to %r by the user; later log rows record %s" % (i, user[i], [float(v) for v in V2[n_before:, i]]))
+    # (7) a target disabled only AFTER a Jacobian was computed with it enabled (persistently or for one call), next step
+    #     with Broyden updates: on a LINEAR problem a Broyden update of a finite-difference Jacobian changes nothing
+    #     beyond rounding, so the step must be the one taken with a recomputed Jacobian (in which the disabled target's
+    #     row is zero by construction) -- whatever was remembered about the disabled target must not steer the step
+    if spec["kind"] == "lin" and spec["m"] >= 2 and not issues:
+        late = [i for i, x in enumerate(spec["dis_t"]) if x] or [spec["m"] - 1]
+        # (only where the comparison is numerically meaningful: the systems solved in both calls well conditioned in solver
+        #  units, so that the 1e-8 rounding of a finite-difference Jacobian stays far below the comparison tolerance)
+        Ax = np.array(spec["A"], dtype=float) * np.array(spec["wv"], dtype=float)[None, :] * np.array(spec["wt"], dtype=float)[:, None]
+        keep = [i for i in range(spec["m"]) if i not in late]
+        conds = []
+        for M_ in (Ax, Ax[keep, :] if keep else Ax):
+            sv = np.linalg.svd(M_, compute_uv=False)
+            conds.append(sv[0] / sv[min(M_.shape) - 1] if sv[min(M_.shape) - 1] > 0 else np.inf)
+        if len(late) < spec["m"] and max(conds) <= 50:
+            finals = []
+            for broy in (True, False):
+                S3 = optmon.Setup(dict(spec, dis_t=[False] * spec["m"], dis_v=[False] * spec["n"], optlog=None))
+                try:
+                    S3.opt.step(1, broyden=broy)
+                    if percall:
+                        S3.opt.step(1, broyden=broy, disable_target=late)
+                    else:
+                        S3.opt.disable(target=late)
+                        S3.opt.step(1, broyden=broy)
+                    finals.append([float(v) for v in S3.knobs()])
+                except Exception:
+                    finals.append(None)
+            if finals[0] is None or finals[1] is None:
+                counters["late_disable_runs_raised"] = counters.get("late_disable_runs_raised", 0) + 1
+            else:
+                counters["late_disable_broyden_vs_recomputed"] = counters.get("late_disable_broyden_vs_recomputed", 0) + 1
+                if any(abs(a - b) > 1e-4 * (1.0 + abs(a) + abs(b)) for a, b in zip(*finals)):
+                    issues.append("linear problem, target(s) %s disabled after a first step: the next step with Broyden updates ends at %s, with a "
+                                  "recomputed Jacobian at %s (the disabled target's remembered Jacobian row steers the step)" % (late, finals[0], finals[1]))
     for what in issues[:3]:
         violations.append(dict(wit, what="C10 " + what))
     return nj
@@ -150,6 +185,7 @@ def check_problem(spec, counters, violations):
 
 def gen(rng):
     spec = optmon.gen_problem(rng, families=("lin", "quad", "trig", "lin", "rankdef"), hard_limits=rng.random() < 0.6)
+    spec["split_actions"] = rng.random() < 0.35       # one action object per target instead of one for all
     spec["nsteps"] = rng.choice([1, 2, 4, 6])
     spec["percall"] = rng.random() < 0.5
     spec["how_vary"] = rng.choice(["name", "tag", "index"])
